@@ -78,6 +78,11 @@ GEN_SPECS = {
     "gen_const": (family.SPECS["gen_const"], {"<a>": lambda src: {"7"}}),
     "gen_dependent": (family.SPECS["gen_dependent"], {"<d>": lambda src: {str(int(src[0]) * 2)}}),
     "gen_nested": (family.SPECS["gen_nested"], {"<outer>": lambda src: {src[0] + "!"}, "<inner>": lambda src: {"a"}}),
+    # a generated field computed from another generated field (which has an argument of its own)
+    "gen_chain": ('<start> ::= <b> ":" <a> ":" <h>\n<b> ::= r"[1-4]"\n<a> ::= r"[0-9]+" := str(int(<b>) * 2)\n<h> ::= r"[0-9]+" := str(int(<a>) + 1)\n',
+                  {"<a>": lambda src: {str(int(src[0]) * 2)}, "<h>": lambda src: {str(int(src[0]) + 1)}}),
+    # a generator whose value does not fit the rule for about half of the argument values: producing or re-running it must raise
+    "gen_may_not_fit": ('<start> ::= <a> "=" <h>\n<a> ::= r"[0-9]"\n<h> ::= r"[0-5]" := str(int(<a>))\n', {"<h>": lambda src: {str(int(src[0]))}}),
     "gen_choice": ('import random\n<start> ::= <tok> "-" <tok>\n<tok> ::= r"[a-z]{2}" := random.choice(["aa", "bb"])\n', {"<tok>": lambda src: {"aa", "bb"}}),
     "gen_two_args": ('<start> ::= <x> "+" <y> "=" <sum>\n<x> ::= r"[0-9]"\n<y> ::= r"[0-9]"\n<sum> ::= r"[0-9]+" := str(int(<x>) + int(<y>))\n',
                      {"<sum>": lambda src: {str(int(src[0]) + int(src[1]))}}),
@@ -102,6 +107,9 @@ GEN_SPECS = {
 }
 
 
+MAY_RAISE = {"gen_may_not_fit"}
+
+
 def text_of(tree):
     """a printable key for a tree (a tree whose bit runs are not byte-aligned has no bytes view)"""
     try:
@@ -113,10 +121,24 @@ def text_of(tree):
             return "tree:" + repr(tree.to_tree())[:200]
 
 
+def _with_recorded_arguments(tree):
+    """the nodes of the tree, and -- transitively -- the argument trees recorded with generated nodes"""
+    todo, seen = list(tree.flatten()), set()
+    while todo:
+        node = todo.pop()
+        if id(node) in seen:
+            continue
+        seen.add(id(node))
+        yield node
+        for s in node.sources:
+            todo.extend(s.flatten())
+
+
 def check_generators(tree, oracles):
-    """C16 contract on one emitted tree"""
+    """C16 contract on one emitted tree (and on the argument trees recorded with it: a nested generated field must stay
+    traceable to the values it was computed from)"""
     problems = []
-    for node in tree.flatten():
+    for node in _with_recorded_arguments(tree):
         sym = node.symbol
         if not getattr(sym, "is_non_terminal", False):
             continue
@@ -146,7 +168,10 @@ def operator_level(name, text, oracles, rnd, rounds, distinct=None):
     n_eval, probs = 0, []
     for k in range(rounds):
         random.seed(rnd.randint(0, 10 ** 9))
-        tree = grammar.fuzz()
+        try:
+            tree = grammar.fuzz()
+        except Exception:          # noqa: BLE001  (a generator value that does not fit its rule: raising is what C16 asks for)
+            continue
         gen_nodes = [n for n in tree.flatten() if getattr(n.symbol, "is_non_terminal", False) and n.symbol.name() in oracles and n.sources]
         for gnode in gen_nodes:
             for pos_i, src in enumerate(gnode.sources):
@@ -280,7 +305,12 @@ def run_pid(pid, tier, seed):
                     fan = fandango_of(text, sd)
                     random.seed(sd)
                     extra = {"initial_population": list(SEEDED[name])} if name in SEEDED else {}
-                    return fan, fan.fuzz(desired_solutions=6, population_size=pop, max_generations=12 if tier == "quick" else 40, random_seed=sd, **extra)
+                    try:
+                        return fan, fan.fuzz(desired_solutions=6, population_size=pop, max_generations=12 if tier == "quick" else 40, random_seed=sd, **extra)
+                    except Exception:          # noqa: BLE001
+                        if name in MAY_RAISE:      # a generator value that does not fit its rule ends the run with an error: what C16 asks for
+                            return fan, []
+                        raise
 
                 res, to = with_budget(go, 120)
                 if to or res is None:
